@@ -224,7 +224,7 @@ def collect_verus_units(prop, repo, scratch, only=None):
 
 def scan_assumptions(text, unit):
     found = []
-    for kw in ('external_body', 'assume_specification', 'admit(', 'assume(', 'uninterp'):
+    for kw in ('external_body', 'assume_specification', 'admit(', 'assume(', 'uninterp', 'exec_allows_no_decreases_clause'):
         n = len(re.findall(re.escape(kw), text))
         if n:
             found.append('%s: %d x %s (contract models / user-function model; DESIGN 3.7)' % (unit, n, kw))
